@@ -1,1 +1,109 @@
-(* placeholder: to be written *)
+(** Trace checker for the governance correspondence run: replays the operations the harness executed
+    on the real governance-v2 (+ energy-factory-mock + fees-collector) and compares every observation.
+    Returns [] or [index; field; model value; implementation value] for the first difference.
+
+    Field codes: 1 = Ok/Err, 2 = returned values, 3 = number of proposals, 4 = status of the first unused id,
+    5 = burned so far, 6 = collector total energy, 10+k = k-th configuration value,
+    1000*id + column = a column of proposal [id]
+      (0 status, 1 live, 2 proposer, 3 fee, 4 minimum quorum, 5 delay, 6 period, 7 withdraw percentage, 8 total energy
+       snapshot, 9 start block, 10 fee withdrawn, 11 up, 12 down, 13 veto, 14 abstain, 15 quorum),
+    200000 + account = fee-token balance, 300000 + user = getUserVotedProposals (first differing element). *)
+From MX Require Import Base.Prelude Gen.Params Model.Governance.
+
+Record gobs := mkObs {
+  o_ok : bool;
+  o_outs : list Z;
+  o_props : list (list Z);        (* one row per id 1..n, columns as above *)
+  o_next : Z;                      (* getProposalStatus (n+1) *)
+  o_voted : list (Z * list Z);     (* user -> getUserVotedProposals *)
+  o_bal : list (Z * Z);            (* account -> fee-token balance *)
+  o_burned : Z;                    (* decrease of the fee token's total supply since deployment *)
+  o_total : Z;                     (* getTotalEnergyForWeek (getLastGlobalUpdateWeek) of the collector *)
+  o_cfg : list Z                   (* min energy, min fee, quorum, delay, period, withdraw percentage *)
+}.
+
+Definition b2z (b : bool) : Z := if b then 1 else 0.
+
+Definition row (g : gov) (id : Z) (p : proposal) : list Z :=
+  [view_status g id; b2z (pr_live p); pr_proposer p; pr_fee p; pr_minq p; pr_delay p; pr_period p; pr_wpct p;
+   pr_total p; pr_start p; b2z (pr_withdrawn p); pr_up p; pr_down p; pr_veto p; pr_abstain p; pr_quorum p].
+
+(** first difference of two lists: (position, left, right); a missing element reads as -1 *)
+Fixpoint list_diff (k : Z) (a b : list Z) : option (Z * Z * Z) :=
+  match a, b with
+  | [], [] => None
+  | x :: a', y :: b' => if x =? y then list_diff (k + 1) a' b' else Some (k, x, y)
+  | x :: _, [] => Some (k, x, -1)
+  | [], y :: _ => Some (k, -1, y)
+  end.
+
+Fixpoint cmp_props (i : Z) (g : gov) (id : Z) (ps : list proposal) (rows : list (list Z)) : list Z :=
+  match ps, rows with
+  | [], [] => []
+  | p :: ps', r :: rows' =>
+      match list_diff 0 (row g id p) r with
+      | Some (k, m, v) => [i; 1000 * id + k; m; v]
+      | None => cmp_props i g (id + 1) ps' rows'
+      end
+  | _, _ => [i; 3; Z.of_nat (length ps); Z.of_nat (length rows)]
+  end.
+
+Fixpoint cmp_voted (i : Z) (g : gov) (l : list (Z * list Z)) : list Z :=
+  match l with
+  | [] => []
+  | (u, ids) :: t =>
+      match list_diff 0 (view_voted g u) ids with
+      | Some (_, m, v) => [i; 300000 + u; m; v]
+      | None => cmp_voted i g t
+      end
+  end.
+
+Fixpoint cmp_bal (i : Z) (g : gov) (l : list (Z * Z)) : list Z :=
+  match l with
+  | [] => []
+  | (a, v) :: t => if bal g a =? v then cmp_bal i g t else [i; 200000 + a; bal g a; v]
+  end.
+
+Definition cfg_of (g : gov) : list Z :=
+  [g_min_energy g; g_min_fee g; g_quorum g; g_delay g; g_period g; g_wpct g].
+
+Definition cmp_state (i : Z) (g : gov) (o : gobs) : list Z :=
+  match cmp_props i g 1 (g_props g) (o_props o) with
+  | [] =>
+    if negb (view_status g (nprops g + 1) =? o_next o) then [i; 4; view_status g (nprops g + 1); o_next o]
+    else if negb (g_burned g =? o_burned o) then [i; 5; g_burned g; o_burned o]
+    else if negb (g_total g =? o_total o) then [i; 6; g_total g; o_total o]
+    else match list_diff 0 (cfg_of g) (o_cfg o) with
+         | Some (k, m, v) => [i; 10 + k; m; v]
+         | None =>
+           match cmp_voted i g (o_voted o) with
+           | [] => cmp_bal i g (o_bal o)
+           | d => d
+           end
+         end
+  | d => d
+  end.
+
+Fixpoint check_trace (g : gov) (i : Z) (tr : list (gop * gobs)) : list Z :=
+  match tr with
+  | [] => []
+  | (op, o) :: t =>
+      match step g op with
+      | Ok (g', outs) =>
+          if negb (o_ok o) then [i; 1; 1; 0]
+          else match list_diff 0 outs (o_outs o) with
+               | Some (_, m, v) => [i; 2; m; v]
+               | None =>
+                 match cmp_state i g' o with
+                 | [] => check_trace g' (i + 1) t
+                 | d => d
+                 end
+               end
+      | Err _ =>
+          if o_ok o then [i; 1; 0; 1]
+          else match cmp_state i g o with
+               | [] => check_trace g (i + 1) t
+               | d => d
+               end
+      end
+  end.
